@@ -17,6 +17,7 @@ type summary struct {
 	Seed       uint64         `json:"seed"`
 	Cases      int            `json:"cases"`
 	Steps      int            `json:"steps"`
+	Queries    int            `json:"queries"`
 	Files      []string       `json:"files"`
 	OpKinds    map[string]int `json:"op_kinds"`
 	Results    map[string]int `json:"results"`
@@ -37,6 +38,11 @@ func main() {
 		os.Exit(2)
 	}
 	fam := os.Args[1]
+	if fam == "witness" {
+		fails, detail := h.Witness(os.Args[2])
+		fmt.Printf("%v\t%s\n", fails, detail)
+		return
+	}
 	fs := flag.NewFlagSet(fam, flag.ExitOnError)
 	seed := fs.Uint64("seed", 1, "PRNG seed")
 	n := fs.Int("n", 100, "number of cases")
@@ -47,6 +53,8 @@ func main() {
 	minops := fs.Int("minops", 3, "minimum history length")
 	maxops := fs.Int("maxops", 14, "maximum history length")
 	bigevery := fs.Int("bigevery", 0, "one object in this many may be large")
+	queries := fs.Int("queries", 2, "up to this many read-only queries after each step")
+	corpus := fs.Int("corpus", 0, "load family: include shipped images up to this size in bytes")
 	_ = fs.Parse(os.Args[2:])
 	if *out == "" {
 		fmt.Fprintln(os.Stderr, "-out required")
@@ -65,8 +73,10 @@ func main() {
 	switch fam {
 	case "hist":
 		s = runHist(*seed, *n, *shards, *out, tmp, *backend, h.GenParams{
-			MaxCap: *maxcap, MinOps: *minops, MaxOps: *maxops, BigEvery: *bigevery,
+			MaxCap: *maxcap, MinOps: *minops, MaxOps: *maxops, BigEvery: *bigevery, Queries: *queries,
 		})
+	case "load":
+		s = runLoad(*seed, *n, *shards, *out, tmp, *backend, *maxcap, *maxops, *queries, *corpus)
 	default:
 		fmt.Fprintln(os.Stderr, "unknown family", fam)
 		os.Exit(2)
@@ -75,6 +85,22 @@ func main() {
 	if err := os.WriteFile(filepath.Join(*out, "summary.json"), b, 0o644); err != nil {
 		panic(err)
 	}
+}
+
+func qres(q h.Query) string {
+	if q.Err != "" {
+		return q.Err
+	}
+	if q.Kind == "data" {
+		return "Ok"
+	}
+	switch len(q.IDs) {
+	case 0:
+		return "empty"
+	case 1:
+		return "one"
+	}
+	return "several"
 }
 
 func runHist(seed uint64, n, shards int, out, tmp, backend string, p h.GenParams) summary {
@@ -111,7 +137,14 @@ func runHist(seed uint64, n, shards int, out, tmp, backend string, p h.GenParams
 		s.Results["create:"+c.InitObs.Res]++
 		sig := fmt.Sprintf("%d|%s", c.Create.EffCap(), c.InitObs.Res)
 		nontrivial := false
+		for _, q := range c.InitQueries {
+			s.Results["query-"+q.Kind+":"+qres(q)]++
+		}
 		for _, st := range c.Steps {
+			for _, q := range st.Queries {
+				s.Results["query-"+q.Kind+":"+qres(q)]++
+				s.Queries++
+			}
 			s.Steps++
 			s.OpKinds[st.Op.KindName()]++
 			s.Results[st.Op.KindName()+":"+st.Obs.Res]++
@@ -155,5 +188,121 @@ func runHist(seed uint64, n, shards int, out, tmp, backend string, p h.GenParams
 		}
 		s.Files = append(s.Files, name)
 	}
+	return s
+}
+
+func tally(s *summary, c *h.Case, distinct map[string]bool) {
+	s.Backends[c.Backend]++
+	init := "load"
+	if c.Create != nil {
+		init = "create"
+		s.Caps[fmt.Sprint(c.Create.EffCap())]++
+	}
+	s.Results[init+":"+c.InitObs.Res]++
+	sig := init + "|" + c.InitObs.Res
+	nontrivial := c.HasHandle
+	for _, q := range c.InitQueries {
+		s.Results["query-"+q.Kind+":"+qres(q)]++
+		s.Queries++
+	}
+	for _, st := range c.Steps {
+		for _, q := range st.Queries {
+			s.Results["query-"+q.Kind+":"+qres(q)]++
+			s.Queries++
+		}
+		s.Steps++
+		s.OpKinds[st.Op.KindName()]++
+		s.Results[st.Op.KindName()+":"+st.Obs.Res]++
+		sig += "|" + st.Op.KindName() + ":" + st.Obs.Res
+	}
+	if nontrivial {
+		distinct[fmt.Sprintf("%s|%d", sig, len(c.LoadBytes))] = true
+	}
+}
+
+func writeShards(s *summary, cases []h.Case, shards int, out, prefix string) {
+	if shards < 1 {
+		shards = 1
+	}
+	for k := 0; k < shards; k++ {
+		var part []h.Case
+		for i := k; i < len(cases); i += shards {
+			part = append(part, cases[i])
+		}
+		if len(part) == 0 {
+			continue
+		}
+		name := fmt.Sprintf("Cases_%s_%d.v", prefix, k)
+		if err := os.WriteFile(filepath.Join(out, name), []byte(h.CasesFile(part)), 0o644); err != nil {
+			panic(err)
+		}
+		s.Files = append(s.Files, name)
+	}
+}
+
+func runLoad(seed uint64, n, shards int, out, tmp, backend string, maxcap, maxops, queries, corpus int) summary {
+	s := summary{
+		Family: "load", Seed: seed, OpKinds: map[string]int{}, Results: map[string]int{},
+		Backends: map[string]int{}, Caps: map[string]int{}, OracleRuns: map[string]int{},
+		Extra: map[string]any{},
+	}
+	root := h.NewRng(seed)
+	var cases []h.Case
+	distinct := map[string]bool{}
+	id := 0
+	run := func(c h.Case) {
+		if _, err := h.RunCase(&c, tmp); err != nil {
+			fmt.Fprintln(os.Stderr, "harness error:", err)
+			os.Exit(3)
+		}
+		tally(&s, &c, distinct)
+		s.Oracle = append(s.Oracle, h.OracleHistory(&c, tmp, s.OracleRuns)...)
+		if len(s.Samples) < 3 {
+			s.Samples = append(s.Samples, fmt.Sprintf("case %d backend=%s load %d bytes -> %s, %d ops", c.ID, c.Backend, len(c.LoadBytes), c.InitObs.Res, len(c.Steps)))
+		}
+		cases = append(cases, c)
+	}
+	be := func(i int) string {
+		if backend == "both" {
+			return []string{"buf", "file"}[i%2]
+		}
+		return backend
+	}
+	nm := 0
+	for i := 0; i < n; i++ {
+		r := root.Fork()
+		id++
+		c := h.GenForeignCase(r, id, be(i), h.ForeignParams{MaxCap: maxcap, Ops: maxops, Queries: queries})
+		run(c)
+		if i%4 == 0 { // header mutants and truncations of every fourth image
+			for _, m := range h.HeaderMutants(r, c.LoadBytes) {
+				id++
+				nm++
+				mc := h.Case{ID: id, Backend: be(id), LoadBytes: m, Hostile: true}
+				mc.InitQueries = []h.Query{{Kind: "many"}, {Kind: "data", ID: 1}}
+				run(mc)
+			}
+		}
+	}
+	s.Extra["header_mutants"] = nm
+	if corpus > 0 {
+		names, imgs := h.CorpusImages("/repo")
+		k := 0
+		for i, img := range imgs {
+			if len(img) > corpus {
+				continue
+			}
+			id++
+			k++
+			c := h.Case{ID: id, Backend: be(i), LoadBytes: img}
+			c.InitQueries = []h.Query{{Kind: "many"}, {Kind: "many", Sels: []h.Selector{{Kind: h.SType, N: h.DataSignature}}}, {Kind: "data", ID: 1}}
+			c.Tags = []string{names[i]}
+			run(c)
+		}
+		s.Extra["corpus_images"] = k
+	}
+	s.Cases = len(cases)
+	s.Distinct = len(distinct)
+	writeShards(&s, cases, shards, out, "load")
 	return s
 }
